@@ -35,6 +35,9 @@ def drive(F3, alg, N, order=0):
                  lambda: g.get_center_distances(only_upper=False, include_opposing_neighbours=False)]
         if order % 2:
             calls = calls[::-1]
+        if order % 3 == 0:
+            # history: the approximate (hull-based) areas are requested first; the exact areas asked for afterwards must still be exact
+            calls.insert(order % 4, lambda: sv.get_voronoi_volumes(approx=True))
         for c in calls:
             c()
         if N >= 5:
